@@ -35,6 +35,10 @@ SPECS = [
     "conn_start_accept=p2p/net/swarm/swarm_conn.go:Conn.start#go0",
     "conn_start_handle=p2p/net/swarm/swarm_conn.go:Conn.start#go1",
     "host_newstream=p2p/host/basic/basic_host.go:BasicHost.NewStream",
+    "swarm_addconn=p2p/net/swarm/swarm.go:Swarm.addConn",
+    "swarm_listen_loop=p2p/net/swarm/swarm_listen.go:Swarm.AddListenAddr#go0",
+    "swarm_listen_conn=p2p/net/swarm/swarm_listen.go:Swarm.AddListenAddr#go1",
+    "swarm_dialaddr=p2p/net/swarm/swarm_dial.go:Swarm.dialAddr",
 ]
 
 
